@@ -10,6 +10,7 @@ import threading
 import gen
 import model
 import real
+import sweep as sweep_mod
 import wire
 from checks_eval import PROBE_ENV, doc_with_all_kinds, sizes, walk_query
 
@@ -85,6 +86,9 @@ def explore_c15(rng, tier, res, deep=False):
         ("$..*", {"a": {"b": 1}}, lambda d: d["a"].__setitem__("c", [2])),
         # several selectors in one segment applied to several input nodes: the order of find() is the order of finditer()
         ("$[*]['b','a']", [{"a": 1, "b": 2}, {"b": 3, "a": 4}, {"a": 5}], lambda d: d.append({"b": 6})),
+        # a JSON value that is a string whose text looks like JSON, a number, a keyword: it is a string for every entry point
+        ("$[0]", "[1, 2]", lambda d: None), ("$.a", '{"a": 1}', lambda d: None), ("$", "[]", lambda d: None), ("$..*", ' {"a": [1]} ', lambda d: None),
+        ("$[0]", "12", lambda d: None), ("$.*", "null", lambda d: None), ("$", "true", lambda d: None), ("$[?@]", '["x"]', lambda d: None),
         ("$[*][0,1]", [[10, 11], [20, 21]], lambda d: d.append([30, 31])),
         ("$.x[*][1,0,-1]", {"x": [[1, 2], [3, 4]]}, lambda d: d["x"].reverse()),
         ("$..k['a','b',*]", {"k": {"a": 1, "b": 2}, "z": {"k": {"b": 3, "a": 4}}}, lambda d: d["z"]["k"].pop("a")),
@@ -390,6 +394,39 @@ def explore_c14(rng, tier, res, deep=False):
                                            "history": ["compile once, then apply to freshly decoded documents back to back: "] + [x[:60] for x in order],
                                            "what": "a reused compiled query gives a different nodelist than a fresh evaluation of equal data"})
                     break
+        # two applications of one compiled query under way at the same time (lazy iterators consumed alternately) on two
+        # values — a different one, or a Python-equal twin: each must give what a fresh evaluation of its value gives
+        for ei, q, c in compiled[:8]:
+            fresh = real.make_env(descs[ei])
+            da = json.loads(json.dumps(rng.choice(docs + eph)))
+            db = sweep_mod.py_equal_twin(rng, da) if rng.random() < 0.5 else json.loads(json.dumps(rng.choice(docs + eph)))
+            if db is None:
+                db = json.loads(json.dumps(rng.choice(docs + eph)))
+            res.evaluations += 1
+            try:
+                ia, ib = iter(c.finditer(da)), iter(c.finditer(db))
+                ga, gb = [], []
+                live_a = live_b = True
+                while live_a or live_b:
+                    if live_a:
+                        n = next(ia, None)
+                        live_a = n is not None
+                        if n is not None:
+                            ga.append(wire.enc_node(n.location, n.value))
+                    if live_b:
+                        n = next(ib, None)
+                        live_b = n is not None
+                        if n is not None:
+                            gb.append(wire.enc_node(n.location, n.value))
+                got_ab = (" ".join(ga), " ".join(gb))
+            except jp.JSONPathError as e:
+                got_ab = ("err " + type(e).__name__,) * 2
+            wa = outcome(lambda: enc_list(fresh.find(q, json.loads(json.dumps(da)))))
+            wb = outcome(lambda: enc_list(fresh.find(q, json.loads(json.dumps(db)))))
+            if not wa.startswith("err ") and not wb.startswith("err ") and got_ab != (wa, wb):
+                res.violations.append({"property": "C14", "query": q, "document": [da, db], "env": descs[ei], "observed": [x[:200] for x in got_ab], "expected": [wa[:200], wb[:200]],
+                                       "history": ["compile once; two finditer() of that query, on the two values shown, consumed alternately"],
+                                       "what": "a compiled query applied to a value while another application of it is under way gives a different nodelist than a fresh evaluation"})
         # the same compiled query applied again and again to ONE object whose content is edited in place
         for ei, q, c in compiled[:8]:
             fresh = real.make_env(descs[ei])
@@ -481,7 +518,9 @@ def explore_c16(rng, tier, res, deep=False):
         return v
 
     env_a, env_b, env_c = jp.JSONPathEnvironment(), Low(), Mid()
-    pool = ["$..*", "$[?@..*]", "$..[?@]", "$[?@[?@]]", "$.*", "$..a", "$[*][*]", "$[?@.a || @[0]]"]
+    pool = ["$..*", "$[?@..*]", "$..[?@]", "$[?@[?@]]", "$.*", "$..a", "$[*][*]", "$[?@.a || @[0]]",
+            # the query argument inside a filter: each iterator has its own `$`
+            "$[?@ == $[0]]", "$[?@ != $[-1]]", "$.*[?@ == $.a]", "$[?$[1]]", "$[?@.a == $.a]", "$..[?@ == $.b]", "$[?count($[*]) > 2]", "$.a[?@ == $.b]"]
     for _ in range(rounds):
         k = rng.choice([2, 2, 3])
         specs = []
@@ -496,10 +535,32 @@ def explore_c16(rng, tier, res, deep=False):
             spine_env = rng.choice([env_b, env_c])
             shared_q = rng.choice(["$..*", "$..a", "$..[0]", "$..[?@]", "$..[?@.a]", "$..[*]", "$[?@..a]"])
             shared_c = (spine_env, spine_env.compile(shared_q))
+        # "twin" rounds: one compiled query with `$` inside a filter over values that Python's == cannot tell apart
+        twin_round = (not spine_round) and rng.random() < 0.25
+        twin_docs = []
+        if twin_round:
+            base = rng.choice([{"k": True, "xs": [0, 1, True, False, "1"]}, [True, 1, 1, 0, False], {"a": 1, "b": [1, True, 0]},
+                               {"want": {"v": 1}, "x": [{"v": 1}, {"v": True}]}, doc_with_all_kinds(rng, 2)])
+            shared_q = rng.choice(["$.xs[?@ == $.k]", "$[?@ == $[0]]", "$[?@ != $[-1]]", "$.b[?@ == $.a]", "$..[?@.v == $.want.v]", "$.*[?@ == $.a]", "$[?$[1] == @]"])
+            twin_docs = [base] + [t for t in (sweep_mod.py_equal_twin(rng, base) for _ in range(k - 1)) if t is not None]
+            if len(twin_docs) < 2:
+                twin_round = False
+            else:
+                try:
+                    shared_c = (env_a, env_a.compile(shared_q))
+                except jp.JSONPathError:
+                    twin_round = False
         for i in range(k):
             e = rng.choice([env_a, env_b])
             q = shared_q if rng.random() < 0.6 else (rng.choice(pool) if rng.random() < 0.5 else g.query())
             d = shared_doc if rng.random() < 0.6 else doc_with_all_kinds(rng, rng.choice([2, 3]))
+            if i > 0 and rng.random() < 0.35:
+                # another value that Python's == cannot tell from an earlier iterator's (true vs 1, false vs 0)
+                tw = sweep_mod.py_equal_twin(rng, specs[0][1])
+                if tw is not None:
+                    d = tw
+            if twin_round:
+                e, q, d = env_a, shared_q, twin_docs[i % len(twin_docs)]
             if spine_round:
                 e, q = spine_env, shared_q
                 d = spine(rng.randint(max(1, spine_env.max_recursion_depth - 2), spine_env.max_recursion_depth + 1))
@@ -516,7 +577,13 @@ def explore_c16(rng, tier, res, deep=False):
             specs.append((c, d, q))
         solo = []
         for c, d, _q in specs:
-            s = drain(iter(c.finditer(d)))
+            # the solitary sequence comes from a FRESH environment and a fresh compile on a copy of the value, so that
+            # nothing the shared objects remember can leak into the reference
+            try:
+                ref_c = type(c.env)().compile(_q)
+                s = drain(iter(ref_c.finditer(json.loads(json.dumps(d)))))
+            except Exception:  # noqa: BLE001
+                s = drain(iter(c.finditer(d)))
             nodes, tail = s.rsplit("|", 1)
             seq = (nodes.split(" ") if nodes else []) + [tail]
             solo.append(seq[: (10 if spine_round else 4)])  # look at the first items + what follows
